@@ -11,7 +11,9 @@
 //!   fdp <u64>                                    util::fast_digit_parse (hook)
 //!   i64t <hex>                                   scalar::to_i64_t (hook)
 //!   frombin-block <start> <count>                FNV fold of Date/DateHour::from_binary over a range
-//!   ymd-block <year> <count>                     FNV fold of all codecs over every day of the years
+//!   ymd-block full|ends <year> <count>           FNV fold of all codecs over every day (month ends) of the years
+//!   shape-block <hex>                            FNV fold of the four parsers over all one-byte corruptions of a text
+//!   fdp-block <seed> <count>                     FNV fold of fast_digit_parse over pseudo-random words
 //!
 //! L3 oracles (implementation only, straight from the property text) are evaluated inside
 //! every op: format→parse round trip, to_binary∘from_binary, from_binary re-encode, typed
@@ -770,7 +772,7 @@ pub fn gen(g: &mut Gen) {
 
     // 1. the four fast-path shapes, every one-byte corruption at every position ----------
     // (block folds: one line per base string; a couple of dates also as individual lines)
-    let nshape = g.budget(60, 4000);
+    let nshape = g.budget(60, 3000);
     let mut shape_dates: Vec<(i32, u32, u32)> = vec![(1444, 11, 11), (1000, 1, 1), (9999, 12, 31), (2200, 2, 28), (1, 9, 9), (0, 1, 1)];
     for _ in 0..nshape { let (_, m, d) = rand_date(g); shape_dates.push((g.rng.range(0, 9999) as i32, m, d)); }
     for (k, (y, m, d)) in shape_dates.iter().enumerate() {
@@ -891,7 +893,7 @@ pub fn gen(g: &mut Gen) {
     }
     // start of every month of a year, ± one hour
     for k in [0i64, 31, 59, 90, 120, 151, 181, 212, 243, 273, 304, 334, 364] { for delta in [-1i64, 0, 1] { bins.push((1444 + 5000) * 8760 + k * 24 + delta); } }
-    let nb = g.budget(1500, 15_000);
+    let nb = g.budget(1500, 8_000);
     for _ in 0..nb {
         let v = match g.rng.below(3) {
             0 => (g.rng.next() as u32) as i32 as i64,
@@ -992,7 +994,7 @@ pub fn gen(g: &mut Gen) {
     g.count("random-strings");
 
     // 6. arithmetic ----------------------------------------------------------------------
-    let na = g.budget(4000, 40_000);
+    let na = g.budget(4000, 25_000);
     for i in 0..na {
         let (y, m, d) = rand_date(g);
         let n: i64 = match g.rng.below(8) {
